@@ -50,11 +50,13 @@ def count_loc(class_node: Any, source: str) -> int:
         source: Full source code string
 
     Returns:
-        Number of lines in class definition
+        Number of code lines in class definition (excludes blank lines and // comments)
     """
     start_line = class_node.start_point[0]
     end_line = class_node.end_point[0]
-    return end_line - start_line + 1
+    lines = source.split("\n")[start_line : end_line + 1]
+    # Blank lines and // comment lines are layout, not code (as for Python and Rust classes)
+    return sum(1 for line in lines if (s := line.strip()) and not s.startswith("//"))
 
 
 def _get_class_body(class_node: Any) -> Any:
